@@ -1,7 +1,390 @@
+import Std.Data.HashMap
 import Driver.Util
+import Model.SeqRender
+/-! Trace acceptor for the `seq` engine: maps each observed event of the real code to an abstract
+event of Model/Sequencer.lean (checking that the bytes are exactly the rendering of the abstract
+payload) and folds `Seq.step`. A `none`, or bytes that are not the prescribed rendering, is a
+correspondence failure at that line. -/
+
 namespace Driver.Seq
-/-- stub: engine not implemented yet -/
+open _root_.Seq SeqRender
+
+structure DS where
+  sys : Sys := { poolSize := 0 }
+  ctx : Ctx := ⟨#[]⟩
+  keyClass : Array Nat := #[]
+  entryIssuers : Array (List Nat) := #[]
+  issuerIdx : Std.HashMap String Nat := {}       -- sha256 hex of issuer → id
+  issuerBlobs : Array Bytes := #[]
+  ckTab : Std.HashMap String Ck := {}            -- checkpoint token id → abstract checkpoint
+  rootTab : Std.HashMap String Tree := {}        -- "n-roothex" → tree
+  mirror : Std.HashMap String (String × Obj) := {} -- key string → (payload token, abstract object)
+  name : String := ""
+  hcache : Option (Tree × Array ByteArray) := none
+  dead : Bool := false
+  tainted : Bool := false
+  scen : Nat := 0
+
+def hexOfBA (b : ByteArray) : String := Bytes.toHex (Bytes.ofByteArray b)
+
+def DS.hashes (d : DS) (tr : Tree) : DS × Array ByteArray :=
+  match d.hcache with
+  | some (t, hs) => if t == tr then (d, hs) else
+      let hs := leafHashes d.ctx tr
+      ({ d with hcache := some (tr, hs) }, hs)
+  | none =>
+    let hs := leafHashes d.ctx tr
+    ({ d with hcache := some (tr, hs) }, hs)
+
+def DS.root (d : DS) (tr : Tree) : DS × String :=
+  let (d, hs) := d.hashes tr
+  let r := hexOfBA (mthRange hs 0 hs.size)
+  ({ d with rootTab := d.rootTab.insert s!"{tr.length}-{r}" tr }, r)
+
+/-- parse "tile/<kind>/x001/234[.p/W]" -/
+def parseTileKey (k : String) : Option TileId := do
+  let parts := k.splitOn "/"
+  match parts with
+  | "tile" :: kindS :: rest =>
+    let kind ← (match kindS with
+      | "data" => some TKind.data
+      | "names" => some TKind.names
+      | s => s.toNat?.map TKind.hash)
+    -- optional trailing ".p", W
+    let (segs, w) ← (match rest.reverse with
+      | wS :: lastP :: more =>
+        if lastP.endsWith ".p" then
+          (match wS.toNat? with
+           | some w => some ((((lastP.dropEnd 2).toString) :: more).reverse, w)
+           | none => none)
+        else some (rest, 256)
+      | _ => some (rest, 256))
+    if segs.isEmpty then none
+    let mut n := 0
+    let cnt := segs.length
+    let mut i := 0
+    for sg in segs do
+      i := i + 1
+      let digits := if i < cnt then (if sg.startsWith "x" then (sg.drop 1).toString else "bad") else sg
+      if digits.length != 3 then none
+      match digits.toNat? with
+      | some v => n := n * 1000 + v
+      | none => none
+    if w == 0 || w > 256 then none
+    some ⟨kind, n, w⟩
+  | _ => none
+
+def DS.keyOf (d : DS) (k : String) : Key :=
+  if k == "checkpoint" then .ckpt
+  else if k == "_roots.pem" then .roots
+  else if k.startsWith "tile/" then
+    match parseTileKey k with
+    | some t => .tile t
+    | none => .other k.hash.toNat
+  else if k.startsWith "staging/" then
+    let rest := (k.drop 8).toString
+    if rest.contains '/' then
+      -- legacy path staging/<chunks>/<root>: identified by root
+      let root := (rest.splitOn "/").getLast!
+      match d.rootTab.toList.find? (fun (kk, _) => kk.endsWith ("-" ++ root)) with
+      | some (_, t) => .legacyStaging t
+      | none => .other k.hash.toNat
+    else match d.rootTab.get? rest with
+      | some t => .staging t
+      | none => .other k.hash.toNat
+  else if k.startsWith "issuer/" then
+    match d.issuerIdx.get? (k.drop 7).toString with
+    | some i => .issuer i
+    | none => .other k.hash.toNat
+  else .other k.hash.toNat
+
+def expectedOpts (k : Key) : String :=
+  match k with
+  | .ckpt => "0/text"
+  | .roots => "0/pem"
+  | .tile t => (match t.kind with | .hash _ => "i/bin" | .data => "zi/bin" | .names => "zi/jsonl")
+  | .staging _ => "zi/bin"
+  | .issuer _ => "i/cert"
+  | _ => "?"
+
+def parseRes (s : String) : Option Res :=
+  match s with
+  | "ok" => some .ok
+  | "errA" => some .errA
+  | "errN" => some .errN
+  | "exists" | "conflict" | "immconflict" | "nf" => some .refused
+  | _ => none
+
+/-- check a concrete checkpoint token against the rendering of abstract checkpoint `c`. -/
+def DS.ckMatches (d : DS) (tok : String) (c : Ck) : DS × Option String :=
+  match tok.splitOn ":" with
+  | [_id, n, root, ts, flags, origin] =>
+    let (d, r) := d.root c.leaves
+    if n.toNat? != some c.leaves.length then (d, some s!"size {n} ≠ {c.leaves.length}")
+    else if root != r then (d, some s!"root {root} ≠ rendered {r}")
+    else if ts.toNat? != some c.time then (d, some s!"timestamp {ts} ≠ {c.time}")
+    else if flags != "rm" then (d, some s!"signature flags {flags} ≠ rm")
+    else if origin != d.name then (d, some "origin differs")
+    else (d, none)
+  | _ => (d, some s!"unparseable checkpoint {tok}")
+
+def tokId (tok : String) : String := (tok.splitOn ":").head!
+
+inductive Outp where
+  | ok (d : DS) (branch : String)
+  | bad (d : DS) (msg : String)
+
+def tryStep (d : DS) (e : Ev) (branch : String) : Outp :=
+  match step d.sys e with
+  | some s' => .ok { d with sys := s' } branch
+  | none => .bad d s!"event not enabled in the model: {branch}"
+
+def parseEntry (ws : List String) : Option (Nat × EntryRec) :=
+  match ws with
+  | [id, pre, cert, ikh, precert, issuers, names] => do
+    let i ← id.toNat?
+    let c ← Bytes.ofHex cert
+    let k ← Bytes.ofHex ikh
+    let p ← Bytes.ofHex precert
+    let iss ← (if issuers == "-" then some [] else (issuers.splitOn ",").mapM Bytes.ofHex)
+    let nm ← (if names == "none" then some none else (Bytes.ofHex names).map some)
+    some (i, ⟨pre == "1", c, k, p, iss, nm⟩)
+  | _ => none
+
+def phaseName (p : Phase) : String :=
+  match p with
+  | .down => "down" | .creating _ => "creating" | .loading _ => "loading" | .idle => "idle"
+  | .round r => s!"round/{repr r.pc}" | .stopped => "stopped"
+
+/-- abstract object + problem (if the bytes are not the prescribed rendering) for an upload by instance i -/
+def DS.classifyUpload (d : DS) (i : Nat) (key : Key) (payload : List String) : DS × Obj × Option String :=
+  let x := d.sys.insts i
+  let blob (ws : List String) : Obj := .blob (String.intercalate " " ws).hash.toNat
+  match key, payload with
+  | .ckpt, ["ck", tok] =>
+    let want : Option Ck := match x.phase with
+      | .creating (.ckptUpload c) => some c
+      | .round r => some r.new
+      | _ => none
+    (match want with
+     | some c =>
+       let (d, pr) := d.ckMatches tok c
+       (match pr with
+        | none => ({ d with ckTab := d.ckTab.insert (tokId tok) c }, .ck c, none)
+        | some m => (d, blob payload, some m))
+     | none => (d, blob payload, some "checkpoint upload in a phase that publishes nothing"))
+  | .tile t, ["raw", sha, len] =>
+    let src : Option Tree := match x.phase with
+      | .round r => some r.new.leaves
+      | .loading (.apply c _ _) => some c.leaves
+      | _ => none
+    (match src with
+     | some tr =>
+       if (t.kind == .data || t.kind == .names) && d.tainted then (d, .slice (t.slice tr), none) else
+       let (d, hs) := d.hashes tr
+       let want := tileContent d.ctx hs tr t
+       if hexOfBA (Sha256.hash want) == sha && len.toNat? == some want.size then (d, .slice (t.slice tr), none)
+       else (d, blob payload, some s!"tile bytes are not the Static CT rendering of the tree (got sha {sha} len {len}, want len {want.size})")
+     | none => (d, blob payload, some "tile upload outside a round / recovery"))
+  | .staging tr, "bundle" :: items =>
+    let its := match items with
+      | [x] => if x == "-" then [] else x.splitOn ","
+      | _ => []
+    let (d, hs) := d.hashes tr
+    let rec go (l : List String) (acc : List (TileId × Tree)) : Option (List (TileId × Tree)) × Option String :=
+      match l with
+      | [] => (some acc.reverse, none)
+      | it :: rest =>
+        (match it.splitOn "=" with
+         | [k, opts, sha, len] =>
+           (match parseTileKey k with
+            | some t =>
+              if opts != expectedOpts (.tile t) then (none, some s!"staged {k} has options {opts}")
+              else if (t.kind == .data || t.kind == .names) && d.tainted then go rest ((t, t.slice tr) :: acc)
+              else
+              let want := tileContent d.ctx hs tr t
+              if hexOfBA (Sha256.hash want) == sha && len.toNat? == some want.size then go rest ((t, t.slice tr) :: acc)
+              else (none, some s!"staged {k} is not the Static CT rendering of the tree")
+            | none => (none, some s!"staged key {k} is not a tile"))
+         | _ => (none, some "malformed bundle item"))
+    (match go its [] with
+     | (some items, _) => (d, .bundle items, none)
+     | (none, m) => (d, blob payload, m))
+  | .issuer id, ["raw", sha, _len] =>
+    let want := hexOfBA (Sha256.hash (Bytes.toByteArray (d.issuerBlobs[id]!)))
+    if sha == want then (d, .issuer id, none) else (d, blob payload, some "issuer object bytes differ from the issuer certificate")
+  | _, _ => (d, blob payload, none)
+
+def srcOf (s : String) : Option Src :=
+  match s with
+  | "sequencer" => some .sequencer | "pool" => some .pool | "cache" => some .cache
+  | "ratelimit" => some .ratelimit | "issuer" => some .issuer | "closed" => some .closed
+  | _ => none
+
+def handleEv (d : DS) (ws : List String) : Outp :=
+  match ws with
+  | ["-", "tamper", k, _mut, tok0] =>
+    let tok := tok0.replace "_" " "
+    let key := d.keyOf k
+    let d := { d with tainted := true }
+    if tok == "gone" then
+      tryStep { d with mirror := d.mirror.erase k } (.tamper key none) "tamper"
+    else
+      let o : Obj := .blob tok.hash.toNat
+      tryStep { d with mirror := d.mirror.insert k (tok, o) } (.tamper key (some o)) "tamper"
+  | inst :: rest =>
+    match inst.toNat? with
+    | none => .bad d "bad instance id"
+    | some i =>
+      let x := d.sys.insts i
+      match rest with
+      | ["launch", "create"] => tryStep d (.launchCreate i) "launch-create"
+      | ["launch", "load"] => tryStep d (.launchLoad i) "launch-load"
+      | ["launch", "round"] => tryStep d (.launchRound i) "launch-round"
+      | ["launch", "submit", _, _] => tryStep d (.launchSubmit i) "launch-submit"
+      | ["config", m] => tryStep d (.config i (m != "reset")) "config"
+      | ["clock", v] =>
+        (match v.toNat? with
+         | some n => tryStep d (.clock i n) s!"clock@{phaseName x.phase}"
+         | none => .bad d "bad clock")
+      | ["lockfetch", "nf"] => tryStep d (.lockFetch i .nf) "lockfetch-nf"
+      | ["lockfetch", "err"] => tryStep d (.lockFetch i .err) "lockfetch-err"
+      | ["lockfetch", "ok", tok] =>
+        (match d.ckTab.get? (tokId tok) with
+         | some c => tryStep d (.lockFetch i (.ok c)) "lockfetch-ok"
+         | none => .bad d s!"lock store returned a checkpoint the model never saw committed: {tok}")
+      | ["lockcreate", tok, res] =>
+        (match x.phase, parseRes res with
+         | .creating (.lockCreate c), some r =>
+           let (d, pr) := d.ckMatches tok c
+           (match pr with
+            | none => tryStep { d with ckTab := d.ckTab.insert (tokId tok) c } (.lockCreate i c r) s!"lockcreate-{res}"
+            | some m => .bad d s!"created checkpoint is not the rendering of the model's: {m}")
+         | _, _ => .bad d "lockcreate in unexpected phase")
+      | ["lockreplace", otok, ntok, res] =>
+        (match x.phase, parseRes res, d.ckTab.get? (tokId otok) with
+         | .round rd, some r, some old =>
+           let (d, pr) := d.ckMatches ntok rd.new
+           (match pr with
+            | none => tryStep { d with ckTab := d.ckTab.insert (tokId ntok) rd.new } (.lockReplace i old rd.new r) s!"lockreplace-{res}"
+            | some m => .bad d s!"new lock checkpoint is not the rendering of old tree ++ pool: {m}")
+         | _, _, none => .bad d s!"compare-and-swap from a checkpoint the model never saw: {otok}"
+         | _, _, _ => .bad d "lockreplace in unexpected phase")
+      | "fetch" :: k :: "nf" :: [] => tryStep d (.fetch i (d.keyOf k) .nf) "fetch-nf"
+      | "fetch" :: k :: "err" :: [] => tryStep d (.fetch i (d.keyOf k) .err) "fetch-err"
+      | "fetch" :: k :: "ok" :: payload =>
+        let tok := String.intercalate " " payload
+        (match d.mirror.get? k with
+         | some (t, o) =>
+           if t == tok then tryStep d (.fetch i (d.keyOf k) (.ok o)) "fetch-ok"
+           else .bad d s!"fetch of {k} returned {tok} but the last stored payload was {t}"
+         | none => .bad d s!"fetch of {k} returned an object the model's store does not have")
+      | "upload" :: k :: opts :: more =>
+        (match more.reverse with
+         | res :: payloadRev =>
+           let payload := payloadRev.reverse
+           (match parseRes res with
+            | none => .bad d "bad upload result"
+            | some r =>
+              -- make the staging path of the round's new tree known before mapping the key
+              let d := match x.phase with
+                | .round rd => (d.root rd.new.leaves).1
+                | _ => d
+              let key := d.keyOf k
+              let (d, o, problem) := d.classifyUpload i key payload
+              (match problem with
+               | some m => .bad d s!"upload {k}: {m}"
+               | none =>
+                 let eo := expectedOpts key
+                 if eo != "?" && eo != opts then .bad d s!"upload {k} with options {opts}, layout prescribes {eo}" else
+                 let imm := opts.startsWith "i" || opts.startsWith "zi"
+                 let d' := if r.applied then { d with mirror := d.mirror.insert k (String.intercalate " " payload, o) } else d
+                 tryStep d' (.upload i key imm o r) s!"upload-{(k.splitOn "/").head!}-{res}"))
+         | [] => .bad d "bad upload line")
+      | ["discard", k, res] =>
+        (match parseRes res with
+         | some r =>
+           let d' := if r.applied then { d with mirror := d.mirror.erase k } else d
+           tryStep d' (.discard i (d.keyOf k) r) s!"discard-{res}"
+         | none => .bad d "bad discard result")
+      | ["submitted", e, low, src] =>
+        (match e.toNat?, srcOf src with
+         | some eid, some sr => tryStep d (.submitted i eid d.keyClass[eid]! (low == "1") d.entryIssuers[eid]! sr) s!"submitted-{src}"
+         | _, _ => .bad d "bad submitted line")
+      | ["ack", e, idx, ts, _src] =>
+        (match e.toNat?, idx.toNat?, ts.toNat? with
+         | some eid, some ix, some t => tryStep d (.ack i eid d.keyClass[eid]! ix t) s!"ack-{_src}"
+         | _, _, _ => .bad d "bad ack line")
+      | ["nack", e, cls, src] =>
+        (match e.toNat? with
+         | some eid =>
+           if cls == "evicted" then tryStep d (.nackEvicted i eid d.keyClass[eid]!) "nack-evicted"
+           else tryStep d (.nack i eid (src == "ratelimit" || src == "issuer" || src == "closed" || src == "cache")) s!"nack-{cls}"
+         | none => .bad d "bad nack line")
+      | ["created"] => tryStep d (.created i) "created"
+      | ["createfail", _] => tryStep d (.createFail i) "createfail"
+      | ["loaded", n, root, ts] =>
+        (match x.phase with
+         | .loading (.edge c _) =>
+           let (d, r) := d.root c.leaves
+           if n.toNat? == some c.leaves.length && root == r && ts.toNat? == some c.time then tryStep d (.loaded i c) "loaded"
+           else .bad d s!"instance loaded a tree (size {n}, ts {ts}) that is not the lock checkpoint's (size {c.leaves.length}, ts {c.time})"
+         | _ => .bad d s!"loaded in phase {phaseName x.phase}")
+      | ["loadfail", cls] => tryStep d (.loadFail i) s!"loadfail-{cls}"
+      | ["roundend", cls] =>
+        let c : Option Cls := match cls with
+          | "ok" => some .ok | "failed" => some .failed | "fatal" => some .fatal | _ => none
+        (match c with
+         | some c => tryStep d (.roundEnd i c) s!"roundend-{cls}"
+         | none => .bad d s!"round ended with an unclassified error {cls}")
+      | ["crash"] => tryStep d (.crash i) "crash"
+      | ["cachelose"] => tryStep d (.cacheLose i) "cachelose"
+      | _ => .bad d "unrecognised event"
+  | [] => .bad d "empty event"
+
 def main : IO UInt32 := do
-  IO.println "MISMATCH 0 engine seq has no driver yet"
+  let (_, t) ← Driver.foldLines (({} : DS), ({} : Driver.Tally)) fun (d, t) n l => do
+    let t := { t with lines := t.lines + 1 }
+    match Driver.words l with
+    | "scenario" :: id :: pool :: name :: _ =>
+      let ps := ((pool.splitOn "=").getLast!).toNat?.getD 0
+      let nm := (name.splitOn "=").getLast!
+      return ({ sys := { poolSize := ps }, name := nm, scen := id.toNat?.getD 0 }, { t with ok := t.ok + 1 })
+    | "entry" :: ws =>
+      match parseEntry ws with
+      | some (i, e) =>
+        if i != d.ctx.entries.size then
+          IO.println s!"MISMATCH {n} entry ids out of order"
+          return (d, { t with mismatches := t.mismatches + 1 })
+        -- dedup key class: first entry with the same (type, issuer key hash, certificate)
+        let cls := (d.ctx.entries.findIdx? fun o => o.pre == e.pre && o.cert == e.cert && (!e.pre || o.ikh == e.ikh)).getD i
+        let mut d := d
+        let mut ids : List Nat := []
+        for b in e.issuers do
+          let h := Bytes.toHex (SeqRender.sha b)
+          match d.issuerIdx.get? h with
+          | some k => ids := ids ++ [k]
+          | none =>
+            let k := d.issuerBlobs.size
+            d := { d with issuerIdx := d.issuerIdx.insert h k, issuerBlobs := d.issuerBlobs.push b }
+            ids := ids ++ [k]
+        return ({ d with ctx := ⟨d.ctx.entries.push e⟩, keyClass := d.keyClass.push cls, entryIssuers := d.entryIssuers.push ids },
+                { t with ok := t.ok + 1 })
+      | none =>
+        IO.println s!"MISMATCH {n} malformed entry line"
+        return (d, { t with mismatches := t.mismatches + 1 })
+    | "end" :: _ => return (d, { t with ok := t.ok + 1 })
+    | "ev" :: ws =>
+      if d.dead then return (d, t)
+      match handleEv d ws with
+      | .ok d' b => return (d', { (t.bump b) with ok := t.ok + 1 })
+      | .bad d' m =>
+        IO.println s!"MISMATCH {n} scenario {d.scen}: {m} :: {l.take 300}"
+        return ({ d' with dead := true }, { t with mismatches := t.mismatches + 1 })
+    | _ =>
+      IO.println s!"MISMATCH {n} unknown line kind"
+      return (d, { t with mismatches := t.mismatches + 1 })
+  IO.println t.summary
   return 0
+
 end Driver.Seq
